@@ -43,6 +43,7 @@ static size_t parsehex(const char *s, unsigned char *out){ size_t n=0; if(!s||s[
 static void puthex(const unsigned char *p, size_t n){ if(!n){ printf("-"); return;} for(size_t i=0;i<n;i++) printf("%02x",p[i]); }
 static void print_data_hex(dispatch_data_t d){ const void *p; size_t n; dispatch_data_t m=dispatch_data_create_map(d,&p,&n); puthex(p,n); dispatch_release(m); }
 
+extern bool _dispatch_verif_block_peek(dispatch_block_t db, volatile void **atomic_flags, volatile void **performed, void **group);
 static char *base; // &_dispatch_queue_attrs[0]
 static long idx_of(dispatch_queue_attr_t a){ return a ? (long)(((char*)a - base)/16) : -1; }
 static dispatch_queue_attr_t app_conc;    // LFN_NOPIE: DISPATCH_QUEUE_CONCURRENT as this (position-dependent) executable sees it: a copy of the table's first entry in its own .bss
@@ -142,6 +143,14 @@ int main(void){
       dispatch_release(d); }
     else if(!strcmp(tok,"AQ")){ long i=atol(strtok(NULL," \n")); int q=atoi(strtok(NULL," \n")); int r=atoi(strtok(NULL," \n"));
       printf("%ld\n", idx_of(dispatch_queue_attr_make_with_qos_class(attr_of(i),(dispatch_qos_class_t)qos_class_of[q],-r))); }
+    else if(!strcmp(tok,"BPW")){ long pre=atol(strtok(NULL," \n")); char *st=strtok(NULL," \n"); long post=atol(strtok(NULL," \n"));
+      fflush(stdout); pid_t pid=fork(); if(pid>0){ int stt; waitpid(pid,&stt,0); if(!(WIFEXITED(stt)&&WEXITSTATUS(stt)==0)) puts("crash"); continue; }
+      signal(SIGILL,SIG_DFL); signal(SIGSEGV,SIG_DFL); signal(SIGABRT,SIG_DFL);
+      static volatile long body; dispatch_block_t b=dispatch_block_create(0,^{ body++; }); volatile void *af,*pf; void *grp; _dispatch_verif_block_peek(b,&af,&pf,&grp);
+      for(long i=0;i<pre;i++) b();
+      if(strcmp(st,"-")) *(volatile uint32_t*)pf=(uint32_t)strtoul(st,NULL,10);       // the counter word as a longer history would have left it
+      for(long i=0;i<post;i++) b();
+      printf("ok %u %d\n", *(volatile uint32_t*)pf, dispatch_group_wait((dispatch_group_t)grp,DISPATCH_TIME_NOW)==0); fflush(stdout); _exit(0); }
     else if(!strcmp(tok,"NP")){ printf("%d\n", app_conc && (char*)app_conc != base); }      // 1: DISPATCH_QUEUE_CONCURRENT lies outside the table (copy relocation)
     else if(!strcmp(tok,"AI")){ long i=atol(strtok(NULL," \n")); printf("%ld\n", idx_of(dispatch_queue_attr_make_initially_inactive(attr_of(i)))); }
     else if(!strcmp(tok,"AO")){ long i=atol(strtok(NULL," \n")); int b=atoi(strtok(NULL," \n")); printf("%ld\n", idx_of(dispatch_queue_attr_make_with_overcommit(attr_of(i),b))); }
